@@ -185,6 +185,13 @@ func genC13(t *rapid.T) any {
 			if b.Scenario == "internal-parallelism" && w.Construct == "fn-args" {
 				sql = strings.Replace(sql, "vf_id(", rapid.SampledFrom([]string{"ASYNC.vf_id(", "SPINASYNC.vf_id(", "ASYNC.vf_id("}).Draw(t, "strategy"), 1)
 			}
+			if b.Scenario == "internal-parallelism" && !w.Wrapped && rapid.IntRange(0, 3).Draw(t, "failingon") == 0 {
+				// PARALLEL joins whose ON evaluation fails for every pair (an error for the query, and nothing else:
+				// no crash, no worker left behind, no query that never returns)
+				kw := rapid.SampledFrom([]string{"PARALLEL JOIN", "PARALLEL LEFT JOIN", "PARALLEL RIGHT JOIN", "PARALLEL STRAIGHT_JOIN"}).Draw(t, "failkw")
+				bad := rapid.SampledFrom([]string{"x." + sc.k + " + y." + sc.t2c, "x." + sc.k + " > y." + sc.t2c + " AND x." + sc.s, "NOT x." + sc.v, "x." + sc.items + " LIKE y." + sc.t2c, "x." + sc.k + " < y." + sc.t2c + " AND (x." + sc.v + " + 1)"}).Draw(t, "failon")
+				sql = "SELECT * FROM t x " + kw + " t2 y ON " + bad
+			}
 			names := []string{sc.k, sc.s, sc.v, sc.items, sc.p, sc.q, sc.t2c}
 			q := C13Q{SQL: sql, Wrapped: w.Wrapped, Unordered: w.Unordered}
 			if b.Scenario == "path-selectors" {
